@@ -106,6 +106,17 @@ claim("C09", PROOF,
       "Trusted: stubs for bufio.Reader.ReadBytes, csv.Reader/Writer, jwriter, the generated marshallers (trusted contracts). Not covered: gob's length framing and csv.Reader's behaviour on a torn record (library internals), the attack command's result pump.",
       "DESIGN.md 8/C09")
 
+claim("C08", PROOF,
+      "Proof over a stream-position model of the io readers (assumed contracts of bytes.Buffer/Reader, io.TeeReader, io.MultiReader with contiguity as precondition): in DecoderFor the buffer always holds exactly the bytes consumed from the input since entry (loop invariant), every trial decoder and the returned decoder are built on a reader that delivers the stream from the position the input had at entry and continues to its end -- nothing consumed while sniffing is lost or replayed.",
+      "Trusted: the reader stubs and the Decoder / DecoderFactory type contracts (a trial decode reads only forward and through the tee). Not covered: that input in none of the formats yields no decoder (acceptance behaviour of the three library decoders), decoder(files) and the encode command loop in package main, transcoding chains (rests on C07's per-codec contracts).",
+      "DESIGN.md 8/C08")
+
+claim("C16", PROOF + " (automatic safety obligations + termination variants)",
+      "Proof of panic-freedom and termination for every input for the in-repo parser code: every index, slice, nil-dereference, nil-map-write, division and type-assertion site and every explicit panic in Buckets.UnmarshalText, the HTTP and JSON targeter closures (with the peeking scanner and startsWithHTTPMethod), the generated easyjson decoders for results and targets, the CSV/JSON/gob decoder closures, DecoderFor, the round-robin decoder, rateFlag/headers/csl/maxBodyFlag/dnsTTLFlag/connectToFlag.Set, normalizeAddrs and resolver.address carries a discharged obligation under the weakest precondition; "
+      "every loop has a variant: range loops by index, input-consuming loops by the ghost amount of unread input (scanner lines incl. the peeked line, reader bytes, lexer tokens), which the library stubs decrease on every successful read.",
+      "Trusted / not covered: panics, hangs and allocation inside encoding/gob, encoding/csv, easyjson's jlexer, bufio, regexp, net, datasize (assumed total, with the stated progress facts); memory proportional to input; wall-clock bounds. Evidence lists every library entry point reached (stubs).",
+      "DESIGN.md 8/C16")
+
 claim("C18", CONC,
       "Proof for all inputs/schedules: firstOfEachIPFamily returns at most one address per IP family, each the first of its family, and modifies nothing (frame: no element of the cache-owned input slice changes); the DNSCaching dial function never writes to the slice handed out by the DNS cache -- also not inside the shuffle callback, which is executed symbolically for arbitrary indices -- shuffles before picking, uses the random generator only with rngMu held, dials JoinHostPort(picked ip, original port) and receives exactly one result per started dial; "
       "the ConnectTo dial function forwards unmapped addresses unchanged, sends the n-th dial of a mapped address to addrs[n mod k] (lemma rotation_period: even rotation) and touches the rotation counter only through one atomic add (declared atomic: any plain access fails a lock obligation); the custom resolver's address() rotates the same way.",
@@ -113,6 +124,6 @@ claim("C18", CONC,
       "Not covered: that the shuffled slice is a permutation (so 'dials go to a currently resolved address' rests on the stub), uniformity of math/rand, dnscache internals, happy-eyeballs timing, the order of option composition in the command.",
       "DESIGN.md 8/C18")
 
-for p in ["C08","C16"]:
+for p in []:
     na(p, "check not built yet (contracts planned in DESIGN.md section 8; engine features pending)")
 na("C11", "not applicable to contract-based verification: the property is the numerical accuracy of the external floating-point t-digest estimator (github.com/influxdata/tdigest); the in-repo code is three one-line delegations, so a contract could only restate an assumed contract of the library, which is the property itself (DESIGN.md section 9)")
